@@ -136,6 +136,17 @@ def run(rep, tier, seed):
                 rep.add(bkey(g, name, stage, "panic", f"C10|{stage}|panic|{cls}"),
                         f"{stage} panicked on {name}: {v['panic'][:160]} (at {v.get('at')})",
                         f"{name}.pdl", {"description": g.text(name)[:600]})
+        if grp == "fixed":
+            # a generator that panics emits nothing for the whole description: every check of that backend silently
+            # loses the file.  Panicking shapes live in files of their own (opts `expect_panic`); anywhere else the
+            # loss of coverage is itself reported
+            expected = set((g.entry(name).get("opts") or {}).get("expect_panic") or [])
+            for stage in ("rust", "python", "cxx", "java"):
+                v = st.get(stage)
+                if isinstance(v, dict) and "panic" in v and stage not in expected:
+                    rep.add(f"C10|corpus|coverage-lost|{stage}", f"the {stage} generator panics on {name}, which is not a file "
+                            f"set aside for that panic: nothing is emitted for it and the {stage} checks lose every shape in it "
+                            f"(isolate the panicking declaration)", f"{name}.pdl")
         if grp in ("fixed", "generated") and isinstance(st.get("analyze"), dict) and "errors" in st["analyze"]:
             codes = [e.get("code") for e in st["analyze"]["errors"]]
             rep.add("C10|corpus|rejected", f"corpus description {name} is rejected by the analyzer ({codes}): the corpus "
